@@ -73,20 +73,40 @@ def units(tier):
 
 
 def _earlier_tuple(d, v, got, ctx, o):
-    """The observed output is what a fixed-arity tuple member declared BEFORE the member the value
-    belongs to produces when its positional packer is applied to the (non-tuple) value."""
+    """The observed output is what a container member declared BEFORE the member the value belongs to produces when its
+    packer is applied, duck-typed, to the value: positional indexing for a fixed tuple, `.copy()` / a comprehension for
+    list-like members, `.copy()` / an items() comprehension for mappings."""
     ms = ref._flatten_union(d if d[0] != "tvconstr" else ("union",) + tuple(d[1:]))
     for m in ms:
         if ref.conforms(m, v, ctx):
             return False        # reached the value's own member first
-        if m[0] in ("tuple", "pep585tuple") and isinstance(v, (list, str)) and not isinstance(v, tuple):
-            try:
-                alt = [ref.encode(e, v[i], ctx, o) for i, e in enumerate(m[1:])]
-            except Exception:
-                continue
-            if ref.same(alt, got):
-                return True
+        alt = _duck_pack(m, v, ctx, o)
+        if alt is not _NO and ref.same(alt, got):
+            return True
     return False
+
+
+_NO = object()
+IDENTITY_LEAVES = ("int", "float", "bool", "str", "none", "any")
+
+
+def _duck_pack(m, v, ctx, o):
+    k = m[0]
+    try:
+        if k in ("tuple", "pep585tuple"):
+            return [ref.encode(e, v[i], ctx, o) for i, e in enumerate(m[1:])]
+        if k in ("list", "seq", "mutseq", "deque", "set", "frozenset", "abcset", "mutset", "tuplevar"):
+            e = m[1]
+            if e[0] == "leaf" and e[1] in IDENTITY_LEAVES and k == "list":
+                return v.copy()
+            return [ref.encode(e, x, ctx, o) for x in v]
+        if k in ("dict", "mapping", "mutmapping"):
+            if all(x[0] == "leaf" and x[1] in IDENTITY_LEAVES for x in (m[1], m[2])) and k == "dict":
+                return v.copy()
+            return {ref.encode(m[1], kk, ctx, o): ref.encode(m[2], x, ctx, o) for kk, x in v.items()}
+    except Exception:   # noqa: BLE001
+        return _NO
+    return _NO
 
 
 def run_case(unit, only=None):
